@@ -5,6 +5,8 @@
 From V Require Import Base.
 From V.spec Require Import SpecTape SpecDisk.
 From V.model Require Import MCassette MDisk.
+From V.model Require MText MValues MOperands MProgram.
+From V.spec Require Spec6809.
 From Coq Require Import Extraction ExtrOcamlBasic.
 Extraction Language OCaml.
 
@@ -22,6 +24,13 @@ Definition x_dsk_needed := MDisk.needed.
 Definition x_dsk_default_order := MDisk.default_order.
 Definition x_dsk_layout_ok := MDisk.layout_constants_ok.
 
+Definition x_asm := MProgram.assemble.
+Definition x_v_int := MValues.v_int.
+Definition x_decode := Spec6809.decode.
+Definition x_canon := Spec6809.canon.
+Definition x_regpair_legal := Spec6809.regpair_legal.
+
 Extraction "model.ml"
+  x_asm x_v_int x_decode x_canon x_regpair_legal
   x_cas_write x_cas_parse x_cas_list
   x_dsk_add x_dsk_image x_dsk_fsck x_dsk_files x_dsk_list x_dsk_free x_dsk_needed x_dsk_default_order x_dsk_layout_ok.
